@@ -392,7 +392,40 @@ func (c *c14Run) add(family string, in c14Input) {
 			c14OptBytes(errs == "" && pan == "", enc), o, c14DH(r.Fields), c14Fields(m, r.Fields, r.OK))
 		c.out.Add(emit.Case{Scenario: scen, Trivial: false, Input: in,
 			Observed: map[string]interface{}{"enc": enc, "marshal_err": errs, "marshal_panic": pan, "unmarshal": r}, Coq: coq, Direct: direct})
+		if in.Stack == "D" && errs == "" && pan == "" && r.OK && len(enc) >= 12 && len(enc) < 3000 {
+			c.reseq(m, family, in, enc)
+		}
 	}
+}
+
+// reseq: the message (decoded from enc) is renumbered while it holds an encoding; both encodings it then
+// produces must be enc with the new message_seq (the raw-bytes cache must not survive setMessageSeq)
+func (c *c14Run) reseq(m *c14Msg, family string, in c14Input, enc []byte) {
+	old := int(enc[4])<<8 | int(enc[5])
+	seq := (old + 1 + len(enc)%7) & 0xffff
+	var ok bool
+	var a1, a2 []byte
+	var err error
+	pan := ""
+	func() {
+		defer func() {
+			if r := recover(); r != nil {
+				pan = fmt.Sprint(r)
+			}
+		}()
+		ok, a1, a2, err = dtlcp.VerifResequence(m.Type, enc, uint16(seq))
+	}()
+	direct := ""
+	if pan != "" {
+		direct = "panic: " + pan
+	}
+	c.out.Add(emit.Case{Scenario: fmt.Sprintf("D-%s-%s-renumbered", m.Name, family), Trivial: false, Input: in, Direct: direct,
+		Observed: map[string]interface{}{"ok": ok, "old_seq": old, "new_seq": seq, "after_decode": a1, "after_encode": a2, "err": fmt.Sprint(err)},
+		Coq:      fmt.Sprintf("Reseq %s %s %d %s %s %s", m.Coq, c14Bytes(enc), seq, emit.Bool(ok), c14OptBytes(ok && err == nil, a1), c14OptBytes(ok && err == nil, a2))})
+}
+
+func c14Unused() {
+	_ = 0
 }
 
 // ---- generators
